@@ -286,12 +286,20 @@ func genC06Bad(t *rapid.T) c06Bad {
 		size := 8 + 2*(n+n%2)
 		off := len(b) - 4 - size // start of the last block
 		// pion's convention: field = n-1 (0 for empty); announce at least two more than present
-		claim := rapid.SampledFrom([]int{n + 2, n + 3, n + 100, 16384, 0xFFFF - int(lastBlk.BeginSeq), 0xFFFF}).Draw(t, "ccfb.claim")
+		// the block holds `slots` metric-block slots (n rounded up to even); a field value f means
+		// f+1 metric blocks, so every f >= slots (and >= 1) announces more than the block holds -
+		// starting with exactly one too many
+		slots := n + n%2
+		least := slots
+		if least < 1 {
+			least = 1
+		}
+		claim := rapid.SampledFrom([]int{least, least + 1, least + 2, n + 100, 16384, 0xFFFF - int(lastBlk.BeginSeq), 0xFFFF}).Draw(t, "ccfb.claim")
 		if claim > 0xFFFF-int(lastBlk.BeginSeq) {
 			claim = 0xFFFF - int(lastBlk.BeginSeq) // stay clear of the listed seq-wrap rejection: this is about size
 		}
-		if claim < n+2 {
-			claim = n + 2
+		if claim < least {
+			claim = least
 		}
 		b[off+6], b[off+7] = byte(claim>>8), byte(claim)
 		return c06Bad{Why: fmt.Sprintf("CCFB report block announcing num_reports field %d with %d metric blocks present", claim, n), Kind: m.KCCFB, Frame: b}
